@@ -125,3 +125,49 @@ Definition untouched (f : bytes) (ops : list wop) : bool := forallb (fun o => ne
 (* answers given to the calls that concern name f *)
 Definition answers_for {A} (f : bytes) (ops : list wop) (tr : list A) : list A :=
   map snd (filter (fun p => touches f (fst p)) (combine ops tr)).
+
+(* ------------------------------------------------ two threads: what is demanded
+   The raw kernel counters are what the platform reads show, in the order of the
+   reads.  The answer demanded for a call is therefore fixed at its read: it is
+   the sequential answer against the history of the listings READ so far
+   (nowrap=True ones, per name, since the last clear); it is handed out when
+   the call returns. *)
+Definition spec_cstep (g : ghost) (sp : slots pobs) (c : cstep)
+  : (ghost * slots pobs) * option (bool * pobs) :=
+  match c with
+  | CRead tid f per nowrap raw =>
+    let r := spec_pstep g (PCall f per nowrap raw) in ((fst r, pset sp tid (Some (snd r))), None)
+  | CWrap tid =>
+    ((g, pset sp tid None), match pget sp tid with Some a => Some (tid, a) | None => None end)
+  | CClear tid f => ((dremove (fname f) g, sp), Some (tid, PDone))
+  end.
+Fixpoint spec_ctrace (g : ghost) (sp : slots pobs) (sched : list cstep) : list (bool * pobs) :=
+  match sched with
+  | [] => []
+  | c :: rest =>
+    match snd (spec_cstep g sp c) with
+    | Some a => a :: spec_ctrace (fst (fst (spec_cstep g sp c))) (snd (fst (spec_cstep g sp c))) rest
+    | None => spec_ctrace (fst (fst (spec_cstep g sp c))) (snd (fst (spec_cstep g sp c))) rest
+    end
+  end.
+
+(* well-formed schedule: a thread reads only when idle, wraps only a call in flight,
+   clears only when idle; listings well-formed *)
+Definition is_some {A} (o : option A) : bool := match o with Some _ => true | None => false end.
+Fixpoint sched_ok (p : slots pop) (sched : list cstep) : bool :=
+  match sched with
+  | [] => true
+  | CRead tid f per nowrap raw :: rest =>
+    negb (is_some (pget p tid)) && dict_ok (width f) raw && sched_ok (pset p tid (Some (PCall f per nowrap raw))) rest
+  | CWrap tid :: rest => is_some (pget p tid) && sched_ok (pset p tid None) rest
+  | CClear tid _ :: rest => negb (is_some (pget p tid)) && sched_ok p rest
+  end.
+(* no cache_clear while a nowrap=True call is in flight (an overlapping clear may be
+   ordered either way; that case is left out of the statement) *)
+Fixpoint clear_ok (p : slots pop) (sched : list cstep) : bool :=
+  match sched with
+  | [] => true
+  | CRead tid f per nowrap raw :: rest => clear_ok (pset p tid (Some (PCall f per nowrap raw))) rest
+  | CWrap tid :: rest => clear_ok (pset p tid None) rest
+  | CClear _ _ :: rest => lock_free p && clear_ok p rest
+  end.
